@@ -325,6 +325,7 @@ def judgeStoreHist : P Verdict := do
     expect "|"
     let stTok ← tok
     if stTok == "panic" then
+      set ([] : List String)
       return { prop := false, corr := false, msg := s!"step {k} {op}: implementation panicked" }
     let status := stTok.toNat?.getD 0
     let mut body : Option (Int × List (Int × Int × Float) × String) := none
